@@ -204,6 +204,17 @@ class Stacker(Transformer):
                     raise ValueError("Feature dimension must not be empty.")
 
             case xr.Dataset():
+                # Non-index coordinates that not every variable carries cannot be stacked
+                partial_coords = [
+                    c
+                    for c in X.coords
+                    if c not in X.dims
+                    and not all(
+                        set(X.coords[c].dims) <= set(var.dims)
+                        for var in X.data_vars.values()
+                    )
+                ]
+                X = X.drop_vars(partial_coords)
                 X = X.to_stacked_array(
                     new_dim=feature_name, sample_dims=(self.sample_name,)
                 )
